@@ -6,6 +6,7 @@ CONSTANTS
   MaxWork = 600
   NumK = 2
   Cross = TRUE
+  Uniform = {"neg", "zero", "one", "i32max", "u32max", "u64max"}
   Only = {}
 INVARIANTS TypeOK StackBounded OutcomeOk WorkBounded Emit
 PROPERTY Terminates
